@@ -248,8 +248,8 @@ class C21(Check):
             ("L001,L002,L003,L004,L005", "LT02", "list"), ("layout.end-of-file", None, "overrides"),
         ]:
             yield {"kind": "select", "rules": rules, "exclude": exclude, "via": via}
-        n = 2 if tier == "quick" else 12
-        for c in gens.corpus_slice(n, maxsize=700):
+        n = 1 if tier == "quick" else 12
+        for c in gens.corpus_slice(n, maxsize=700, offset=3):
             c.update({"kind": "indep", "mutated": 0, "selections": "each-fired"})
             yield c
         # ansi: the one-rule runs happen in a pristine process (see run_indep)
@@ -261,10 +261,10 @@ class C21(Check):
         return st.one_of(select_case(), select_case(), select_case(), synthetic_case(), synthetic_case(), indep_case())
 
     def examples(self, tier):
-        return 150 if tier == "quick" else 5000
+        return 120 if tier == "quick" else 5000
 
     def budget_s(self, tier):
-        return 200.0 if tier == "quick" else 1700.0
+        return 300.0 if tier == "quick" else 1700.0
 
     def run_case(self, case):
         k = case.get("kind")
@@ -434,7 +434,7 @@ class C21(Check):
             out.label("indep:has-PRS/LXR/TMP")
         sels = case.get("selections")
         if sels == "each-fired":
-            sels = [{"rules": c, "exclude": None} for c in fired[:6]]
+            sels = [{"rules": c, "exclude": None} for c in fired[:4 if case["dialect"] in PRISTINE_DIALECTS else 6]]
         n_run = 0
         for sel in sels:
             rules, exclude = resolve(sel.get("rules"), fired), resolve(sel.get("exclude"), fired)
